@@ -125,6 +125,11 @@ func genC03(t *tape.Tape, tier string) any {
 	}
 	c.TLS12 = t.Chance(1, 3)
 	c.ConnOpt = []string{"", "close", "keep-alive", "x-foo, Close"}[t.Pick(5, 2, 1, 1)]
+	if c.Fault == "" && c.Route == "upgrade" && t.Chance(1, 6) {
+		// the origin answers 101 without "Connection: Upgrade" / "Upgrade": not a protocol switch the proxy can relay
+		// as a tunnel; whatever it does with it, the exchange must end and be accounted for (C13)
+		c.Fault = "bare-101"
+	}
 	if c.Fault == "" && t.Chance(1, 5) {
 		// a quiet period in the middle of a healthy tunnel: one endpoint stays silent for a while, the other one
 		// keeps its own direction open until it has seen the pauser's FIN (so the documented 1-minute grace period
@@ -387,6 +392,19 @@ func runC03(env *core.Env, ci any) {
 					return
 				}
 				t.headSeen = string(head)
+				if c.Fault == "bare-101" {
+					conn.Write([]byte("HTTP/1.1 101 Switching Protocols\r\nX-Bare: yes\r\n\r\n"))
+					env.Fault("bare-101")
+					buf := make([]byte, 512)
+					conn.SetReadDeadline(time.Now().Add(2 * time.Minute))
+					for {
+						if _, err := conn.Read(buf); err != nil {
+							break
+						}
+					}
+					conn.Close()
+					return
+				}
 				farSide(t, conn, conn, rest, []byte("HTTP/1.1 101 Switching Protocols\r\nConnection: Upgrade\r\nUpgrade: websocket\r\n\r\n"))
 			})
 		}
